@@ -119,6 +119,11 @@ func run(t testing.TB, res *vh.Result, src string, hist []Step, predicted bool) 
 		switch st.Op {
 		case "submit":
 			before := len(w.poolIDs())
+			if st.Req >= 1 && st.Req <= len(u.Reqs) && u.Reqs[st.Req-1].Nvb <= w.rel() {
+				// a request that arrives at or after its own NotValidBefore: whether the main transaction still goes out
+				// depends legitimately on what the service knew when it became complete
+				clean = false
+			}
 			ev, sends = r.submit(st.Req)
 			if ev != nil && (ev["ok"] != true || len(ev["pool"].([]int)) != before+1) {
 				clean = false
@@ -202,8 +207,9 @@ func twinOf(hist []Step, rd *rand.Rand) []Step {
 }
 
 // compareTwin appends a twin event to the primary's events when the two runs are comparable: the comparison points are
-// the ends of the runs of submissions and the end of the history; a point counts while no submission was refused and
-// nothing was evicted in either run (the pool's capacity makes the order matter legitimately).
+// the ends of the runs of submissions and the end of the history; a point counts while no submission was refused,
+// nothing was evicted and no request arrived at or after its own NotValidBefore in either run (the pool's capacity and the
+// NotValidBefore rule make the order matter legitimately).
 func compareTwin(res *vh.Result, a, b *outcome) {
 	if a == nil || b == nil || len(a.events) == 0 {
 		return
